@@ -453,6 +453,9 @@ class Check:
                 cov[k] = v
         from . import history
         cov['histories'] = dict(history.STATS)
+        odm = sys.modules.get('harness.oracle_dtcwt')
+        if odm is not None:
+            cov['reference_zero_shortcut_misfires_linearised'] = odm.SHORTCUT['misfired']
         ev = {'property_id': self.id, 'tier': self.tier, 'seed': self.seed, 'level': 'proof',
               'coverage': cov, 'assumptions': self.assumptions, 'wall_s': round(wall, 2),
               'violations': (len(self.failures) if self.failures else (1 if broken else 0))}
